@@ -52,7 +52,13 @@ def cmd_check(prop, tier, seed):
             res.no_input.append(b)
         skip_corr = bool(broken) and not getattr(mod, "RUN_WHEN_BROKEN", True)
         if not skip_corr:
-            mod.run(res, tier, seed)
+            try:
+                mod.run(res, tier, seed)
+            except common.MachineryError:
+                raise
+            except Exception as e:  # noqa
+                # the harness could not drive the implementation to the end: the correspondence is not established
+                res.no_input.append("correspondence of %s aborted: %r\n%s" % (prop, e, traceback.format_exc()[-1500:]))
         if hasattr(mod, "known"):
             mod.known(res)
         return common.finish(res, mod.RULE, mod.ASSUME, mod.TB + getattr(mod, "TB_EXTRA", []))
